@@ -265,6 +265,26 @@ pub fn dump(out: &str, seed: u64, mutants_per_msg: usize, alphabet_len: usize) -
                 break;
             }
         }
+        // discriminants, presence flags and length prefixes anywhere in the body: small values at random positions
+        for _ in 0..mutants_per_msg * 2 {
+            let i = rng.random_range(0..bytes.len());
+            let v = [0u8, 1, 2, 3, 4, 5, 6, 7, 8, 0x3f, 0x40, 0x80, 0xff][rng.random_range(0..13usize)];
+            if v != bytes[i] {
+                let mut b = bytes.clone();
+                b[i] = v;
+                variants.push(b);
+            }
+        }
+        // a slice of the message repeated in place (duplicate list entries) or removed (missing fields)
+        for _ in 0..mutants_per_msg / 4 {
+            let i = rng.random_range(0..bytes.len());
+            let l = rng.random_range(1..=(bytes.len() - i).min(40));
+            let mut b = bytes[..i + l].to_vec();
+            if rng.random_bool(0.5) { b.extend_from_slice(&bytes[i..i + l]); }
+            else { b.truncate(i); }
+            b.extend_from_slice(&bytes[i + l..]);
+            variants.push(b);
+        }
         // random single-bit flips and random truncations anywhere
         for _ in 0..mutants_per_msg {
             let mut b = bytes.clone();
@@ -284,7 +304,8 @@ pub fn dump(out: &str, seed: u64, mutants_per_msg: usize, alphabet_len: usize) -
             st.msgs += 1;
             // TLC gets the framing-complete wire formats and a sample of the rest (bounded row size)
             let wf = if b.len() >= 4 { u16::from_be_bytes([b[2], b[3]]) } else { 0 };
-            if b.len() <= 700 && (wf == 2 || wf == 3 || vi % 7 == 0) {
+            let _ = wf;
+            if b.len() <= 1500 {
                 writeln!(f, "{}", json!({"k": "msg", "kind": kind, "s": b, "accepted": acc})).map_err(|e| e.to_string())?;
             }
         }
